@@ -162,9 +162,10 @@ func selection(c *core.Ctx, rec, node *core.Fn, trueNil bool) {
 			return false
 		}
 		r := tt.Resolve(info, body, e, 5)
-		return identObj(info, e) != nil && identObj(info, e) == host || tt.SameExpr(info, r, hostRoot)
+		return host != nil && identObj(info, e) != nil && identObj(info, e) == host || tt.SameExpr(info, r, hostRoot)
 	}
-	if isMaster == nil || host == nil || !hostIsElem {
+	// the probed host may be written as the element expression itself (`probe(hosts[i], ..)`)
+	if isMaster == nil || !hostIsElem {
 		c.Undecidedf("R1.select", name+"/probe", calls[0].Pos(), "the probed host is not the loop's element or the answer is not kept in a variable")
 		return
 	}
